@@ -10,6 +10,9 @@ P = lambda n: ("param", n)      # noqa: E731
 
 
 def same(alg, t1, t2):
+    import norm
+    nz = norm.Normalizer()
+    t1, t2 = nz(t1), nz(t2)
     try:
         if alg.equivalent(alg.interp(t1), alg.interp(t2)):
             return True
@@ -90,6 +93,31 @@ def plain_shapes():
     for op in ("Bind", "Exists", "Forall"):
         out.append((f"hybrid:{op}", E.shape_hybrid(op, x, None, c), E.expected_quantifier(op, g, g, rc, x), "hybrid", op))
     out.append(("hybrid:Jump", E.shape_hybrid("Jump", x, None, c), E.expected_jump(g, rc, x), "hybrid", "Jump"))
+    return out
+
+
+def child_variants():
+    """Syntactically special children (constants, variable, wild-card): an implementation must not special-case them."""
+    return [("True", E.N(E.shape_atom("True"))), ("False", E.N(E.shape_atom("False"))), ("Var", E.N(E.shape_atom("Var", E.lit("y")))),
+            ("WildCard", E.N(E.shape_atom("WildCardProp", E.lit("w")))),
+            ("Not", E.N(E.shape_unary("Not", E.N(E.shape_atom("Prop", E.lit("q2"))))))]
+
+
+def variant_shapes(ops=None):
+    """Operator shapes with special children: (key, shape, alternatives, kind, op)."""
+    g, sl = E.G, E.SL
+    out = []
+    for vname, c in child_variants():
+        rc = E.REC(c, g, sl)
+        for op in E.UNARY:
+            if ops is None or op in ops:
+                out.append((f"unary:{op}[{vname}]", E.shape_unary(op, c), E.expected_unary(op, g, rc, sl), "unary", op))
+        for op in E.BINARY:
+            if ops is None or op in ops:
+                other = GENERIC_L
+                ro = E.REC(other, g, sl)
+                out.append((f"binary:{op}[_,{vname}]", E.shape_binary(op, other, c), E.expected_binary(op, g, ro, rc, sl), "binary", op))
+                out.append((f"binary:{op}[{vname},_]", E.shape_binary(op, c, other), E.expected_binary(op, g, rc, ro, sl), "binary", op))
     return out
 
 
@@ -178,15 +206,14 @@ def roles(fn):
 def operator_callees(en):
     """From eval_node's dispatch: operator variant -> set of local evaluator functions called in its arm
     (un-inlined view, resolved callees, path conditions)."""
-    eng = terms.Engine(en.prog, inline=False)
+    # helpers of the algorithm module are inlined (deep sites), the evaluators of the operator module are not
+    eng = terms.Engine(en.prog, inline=True, hooks=E.Hooks([E.ALG], opaque_names=[E.ALG + "eval_node", E.ALG + "compute_attractor_states",
+                                                                                  E.ALG + "compute_steady_states"]))
     summ = eng.summary(en.fn)
     out = {}
-    hq = en.prog.lib_fn(E.ALG + "eval_hybrid_quantifier")
     fns = [(en.fn, summ)]
-    if hq is not None:
-        fns.append((hq, eng.summary(hq)))
     for fn, sm in fns:
-        for s in sm.sites:
+        for s in sm.all_sites():
             if s.kind != "call" or not isinstance(s.callee, str):
                 continue
             tgt = en.prog.resolve_local(fn.crate, s.callee)
@@ -274,9 +301,46 @@ def check_loop_protocol(rep, rule, prog, fn, engine):
     summ = engine.summary(fn)
     if summ is None:
         return
+    import norm
+    import q
+    nz = norm.Normalizer()
     for lid, info in sorted(summ.loops.items()):
         node = info.get("node")
-        if node is None or info.get("kind") != "while":
+        if node is None:
+            continue
+        if info.get("kind") == "loop" and info.get("vars"):
+            # `loop { match vars.map(update).find(non-empty) { Some(u) => x = x | u, None => return x } }`
+            where = f"{fn.file}:{node['sp'][0]}"
+            key = f"{fn.name}/loop"
+            exits = [s for s in summ.sites if s.kind in ("break", "return") and s.loops and s.loops[-1] == lid]
+            gname = roles(fn)[0]
+            alg = setalg.Alg()
+            want = alg.canon(("call", S.GRAPH + "variables", (gname,))) if gname else None
+            problems = []
+            if not exits:
+                problems.append("no exit found")
+            for s in exits:
+                ok = False
+                for t, pol in q.conds(s.pc):
+                    x = q.is_some_test(t)
+                    if x is None or pol or x[0] != "hof" or x[1] != "find":
+                        continue
+                    recv, body = x[2], x[3]
+                    src = recv
+                    while src[0] == "hof" and src[1] == "map":
+                        src = src[2]
+                    src = terms.strip_iter_adapters(src)
+                    elem = nz(("elem", recv))
+                    b = nz(body)
+                    nonempty = b[0] == "not" and b[1][0] == "call" and b[1][1].endswith("is_empty") and b[1][2] == (elem,)
+                    if want is not None and alg.canon(src) == want and nonempty:
+                        ok = True
+                if not ok:
+                    problems.append(f"exit at line {s.line()} is not conditioned on `no variable yields a non-empty update`")
+            rep.check(not problems, rule, key, where,
+                      "search loop stops only when no network variable yields a non-empty update", "; ".join(problems))
+            continue
+        if info.get("kind") != "while":
             continue
         where = f"{fn.file}:{node['sp'][0]}"
         key = f"{fn.name}/loop"
